@@ -471,16 +471,16 @@ var c38Settings = []c38Setting{
 // v1 defaults the 1.x document states (or shows as the only sensible reading); only used to
 // leave values alone that are not "non-default v1 settings".
 var c38V1Defaults = map[string]any{
-	"AddSpanCountToRoot":         false,
-	"AddRuleReasonToTrace":       false,
-	"CompressPeerCommunication":  true,
-	"PeerManagement.UseTLS":      false,
-	"PeerManagement.UseTLSInsecure": false,
+	"AddSpanCountToRoot":               false,
+	"AddRuleReasonToTrace":             false,
+	"CompressPeerCommunication":        true,
+	"PeerManagement.UseTLS":            false,
+	"PeerManagement.UseTLSInsecure":    false,
 	"PeerManagement.UseIPV6Identifier": false,
-	"InMemCollector.MaxAlloc":    int64(0),
-	"StressRelief.Mode":          "never",
-	"PeerManagement.Type":        "file",
-	"EnvironmentCacheTTL":        "1h",
+	"InMemCollector.MaxAlloc":          int64(0),
+	"StressRelief.Mode":                "never",
+	"PeerManagement.Type":              "file",
+	"EnvironmentCacheTTL":              "1h",
 }
 
 // ---------------------------------------------------------------------------------------
